@@ -21,6 +21,12 @@ type Case struct {
 	Prefix string `json:"prefix,omitempty"`
 	Path   []Op   `json:"path"`
 	Probe  string `json:"probe,omitempty"`
+	Other  []Op   `json:"other,omitempty"` // for probe "obs": the earlier history that reached the same canonical state
+}
+
+type seenState struct {
+	obs  string
+	path []Op
 }
 
 // Pre is the snapshot taken before a transition (used by transition oracles).
@@ -142,7 +148,7 @@ func (s *Search) fullPath(p []Op) []Op {
 func (s *Search) Run() {
 	j := run.TheJournal
 	w0 := Replay(s.Cfg, s.Prefix)
-	seen := map[string]string{w0.Key(): w0.Obs()}
+	seen := map[string]seenState{w0.Key(): {w0.Obs(), nil}}
 	frontier := [][]Op{{}}
 	s.States = 1
 	if s.KeepStates {
@@ -208,14 +214,14 @@ func (s *Search) Run() {
 			for _, sc := range out[fi] {
 				s.Transitions++
 				if prev, ok := seen[sc.key]; ok {
-					if prev != sc.obs {
-						s.Part.Violate(s.Check, "C01:path-dependent-observables",
-							"a state with the same entries, heads and clocks reached by a different history exposes different Values()/Heads()/manifest order",
-							Case{Config: s.Cfg.Name, Prefix: s.PrefixID, Path: s.fullPath(sc.path), Probe: "obs"})
+					if prev.obs != sc.obs {
+						s.Part.Violate(s.Check, s.Part.Property+":path-dependent-observables",
+							fmt.Sprintf("the histories [%s] and [%s] reach the same entries, heads and clocks but expose different Values()/Heads()/manifest order", PathString(s.fullPath(prev.path)), PathString(s.fullPath(sc.path))),
+							Case{Config: s.Cfg.Name, Prefix: s.PrefixID, Path: s.fullPath(sc.path), Probe: "obs", Other: s.fullPath(prev.path)})
 					}
 					continue
 				}
-				seen[sc.key] = sc.obs
+				seen[sc.key] = seenState{sc.obs, sc.path}
 				s.States++
 				if sc.nontr {
 					s.Part.Nontriv(sc.key)
@@ -294,6 +300,13 @@ func ParallelFor(n, workers int, fn func(i, slot int)) {
 // RunPath executes one full path (prefix included in path) with the transition
 // oracle at every step beyond the prefix and the state probe at the end: the replay of a Case.
 func (s *Search) RunPath(c Case) {
+	if c.Probe == "obs" {
+		a, b := Replay(s.Cfg, c.Path), Replay(s.Cfg, c.Other)
+		if a.Key() == b.Key() && a.Obs() != b.Obs() {
+			s.Part.Violate(s.Check, s.Part.Property+":path-dependent-observables", "same canonical state, different observables", c)
+		}
+		return
+	}
 	w := NewWorld(s.Cfg)
 	for i, op := range c.Path {
 		var pre *Pre
